@@ -325,6 +325,18 @@ def running_definitions(P, R, rid):
             'running|running_on', ro.loc(), 'ProcessStatus.running_on returns %s: the per-instance payload can say '
             'STOPPING/RUNNING while the instance is no longer listed (or the reverse), so a copy is not invalidated / not '
             'stopped' % rv)
+    # what runs on an instance is every process for which running_on(that instance) - whatever the state of the instance:
+    # the processes of a FAILED / ISOLATED instance are precisely those that invalidate_failed must declare lost
+    rp = P.unit('SupvisorsInstanceStatus.running_processes')
+    from ..defuse import comp_view
+    rs = [v for v, f, n in returns(rp) if v is not None]
+    cv = comp_view(rp, rs[0]) if len(rs) == 1 else None
+    E = 'each(self.processes.values())'
+    ok = cv is not None and cv['kind'] == 'list' and cv['iters'] == ['self.processes.values()'] and cv['elt'] == E and \
+        cv['conds'] == {(E + '.running_on(self.identifier)', True)}
+    R.check(rid, ok, 'running_processes() lists every process running on the instance, unconditionally',
+            'running|instance', rp.loc(), 'SupvisorsInstanceStatus.running_processes returns %s: the processes of an '
+            'instance that has just been isolated are no longer invalidated' % [ast.unparse(v)[:100] for v in rs])
     pr = P.unit('ProcessStatus.running')
     rv = [ctext(v) for v, f, n in returns(pr) if v is not None]
     st = supstates.load()
@@ -439,3 +451,38 @@ def running_filter(P, R, rid):
     R.check(rid, ok, 'candidates are the requested identifiers seen RUNNING, in the requested order',
             'running-filter|get_supvisors_instance', g.loc(), 'get_supvisors_instance does not hand the strategy exactly '
             '[i for i in identifiers if i in context.running_identifiers()]')
+
+
+def command_added_hook(P, R, rid):
+    """a command added to a job already in progress gets its instance through the hook on_command_added, which the start
+    jobs override: add_commands calls it (by that name, on self) for every command it appends."""
+    from ..paths import factmap, call_text
+    ac = P.unit('ApplicationJobs.add_commands')
+    fm = factmap(ac)
+    app = [c for c in own_nodes(ac.node) if isinstance(c, ast.Call) and isinstance(c.func, ast.Attribute)
+           and c.func.attr == 'append']
+    hook = [c for c in own_nodes(ac.node) if isinstance(c, ast.Call) and call_text(c) == 'self.on_command_added']
+    ok = len(app) == 1 and len(hook) == 1 and {tuple(f) for f in fm.at(hook[0])} == {tuple(f) for f in fm.at(app[0])} and \
+        'on_command_added' in P.cls('ApplicationStartJobs').methods
+    R.check(rid, ok, 'every command appended to a job in progress goes through on_command_added', 'hook|on_command_added',
+            ac.loc(), 'ApplicationJobs.add_commands does not call self.on_command_added() for the command it appends (calls: '
+            '%s): the override of ApplicationStartJobs, which gives the command its Supvisors instance for a '
+            'non-distributed application, never runs' %
+            sorted({call_text(c) for c in own_nodes(ac.node) if isinstance(c, ast.Call) and call_text(c).startswith('self.on_')}))
+
+
+def polymorphic_factories(P, R, rid):
+    """the job / command classes are read through self (the prediction model substitutes its own): never through the
+    name of a class."""
+    n = 0
+    for cname in ('Commander', 'Starter', 'Stopper', 'ApplicationJobs', 'ApplicationStartJobs', 'ApplicationStopJobs'):
+        c = P.cls(cname)
+        for u in c.methods.values():
+            for x in own_nodes(u.node):
+                if isinstance(x, ast.Attribute) and x.attr in ('job_class', 'command_class') and isinstance(x.ctx, ast.Load):
+                    n += 1
+                    ok = isinstance(x.value, ast.Name) and x.value.id == 'self'
+                    R.check(rid, ok, '%s reads %s through self' % (u.qual, x.attr), 'factory|%s|%s' % (u.qual, x.attr),
+                            u.loc(x), '%s builds its jobs / commands with %s: the class substituted by the prediction '
+                            'model is bypassed and the prediction runs the real effects' % (u.qual, ast.unparse(x)))
+    R.require(n >= 3, 'only %d reads of job_class / command_class found' % n)
